@@ -125,7 +125,12 @@ func RunHistory(cfg Config, seed int64, dir string) (res *Result) {
 		res.Diff = df("harness:create", "%v", err)
 		return res
 	}
-	defer w.Close()
+	defer func() {
+		if w.Abandoned {
+			return // a goroutine of this history is parked inside the manager, holding or awaiting its locks
+		}
+		w.Close()
+	}()
 	x := &run{cfg: cfg, w: w, st: res.Stats, res: res, sc: sc}
 	if sc != nil {
 		w.DB.Trace = sc.Trace(func(d *Diff) {
@@ -228,7 +233,17 @@ func (x *run) step(op *Op) {
 	}
 	// C10: single write fault at every position, each attempt rolled back
 	if cfg.Faults && op.Run != nil && op.Mutates {
-		if x.faultSweep(op) {
+		// the history is single-threaded: if the sweep (a failed write, the queries
+		// after it, the retry) ends up parked on one of the manager's own locks,
+		// a failed write has left a lock behind
+		var swept bool
+		stack, blocked := evid.Blocked([]string{"btcwallet/waddrmgr."}, func() { swept = x.faultSweep(op) })
+		if blocked {
+			w.Abandoned = true
+			x.fail(&Diff{"c10:manager-blocked-after-failed-write:" + op.Kind, fmt.Sprintf("%s: after an injected write failure the manager no longer answers: the (only) goroutine using it is parked on a lock inside waddrmgr and its stack does not change:\n%s", op.Name, stack)})
+			return
+		}
+		if swept {
 			return
 		}
 	}
